@@ -374,20 +374,24 @@ class VParallelAdvection:
                                        self._constants.deltaRTi, self._edgeType, self._spline.basis.cubic_uniform)
 
     def gridStep(self, grid: Grid, phi: Grid, parGrad: ParallelGradient, parGradVals: np.array, dt: float):
+        # The gradient is known for all z, the grid only contains the local z
+        zStart = grid.getGlobalIdxVals(1)[0]
         for i, r in grid.getCoords(0):
             parGrad.parallel_gradient(
                 np.real(phi.get2DSlice(i)), i, parGradVals[i])
             for j, _ in grid.getCoords(1):  # z
                 for k, _ in grid.getCoords(2):  # q
                     self.step(grid.get1DSlice(
-                        i, j, k), dt, parGradVals[i, j, k], r)
+                        i, j, k), dt, parGradVals[i, zStart+j, k], r)
 
     def gridStepKeepGradient(self, grid: Grid, parGradVals, dt: float):
+        # The gradient is known for all z, the grid only contains the local z
+        zStart = grid.getGlobalIdxVals(1)[0]
         for i, r in grid.getCoords(0):
             for j, _ in grid.getCoords(1):  # z
                 for k, _ in grid.getCoords(2):  # q
                     self.step(grid.get1DSlice(
-                        i, j, k), dt, parGradVals[i, j, k], r)
+                        i, j, k), dt, parGradVals[i, zStart+j, k], r)
 
 
 class PoloidalAdvection:
